@@ -1,13 +1,14 @@
 package main
 
 import (
-	"regexp"
 	"fmt"
 	"go/constant"
 	"go/token"
 	"go/types"
 	"os"
+	"regexp"
 	"sort"
+	"strconv"
 	"strings"
 
 	"golang.org/x/tools/go/ssa"
@@ -159,6 +160,25 @@ func (c *Ctx) nullableSource(v ssa.Value, nf map[string]bool) string {
 	switch x := v.(type) {
 	case *ssa.UnOp:
 		if x.Op == token.MUL {
+			// a pointer VARIABLE handed to the JSON decoder by address (`var p *T; json.Unmarshal(b, &p)`): the input
+			// `null` leaves it nil and the decoder reports no error
+			if al, ok := x.X.(*ssa.Alloc); ok {
+				if _, isPP := derefT(al.Type()).Underlying().(*types.Pointer); isPP && al.Referrers() != nil {
+					for _, r := range *al.Referrers() {
+						mi, isMI := r.(*ssa.MakeInterface)
+						if !isMI || mi.Referrers() == nil {
+							continue
+						}
+						for _, rr := range *mi.Referrers() {
+							if cl, isC := rr.(*ssa.Call); isC {
+								if g := cl.Call.StaticCallee(); g != nil && (g.String() == "encoding/json.Unmarshal" || g.String() == "github.com/go-jose/go-jose/v3/json.Unmarshal") {
+									return "pointer variable decoded by " + g.String()
+								}
+							}
+						}
+					}
+				}
+			}
 			if fa, ok := x.X.(*ssa.FieldAddr); ok {
 				t := fa.X.Type().Underlying().(*types.Pointer).Elem()
 				k := types.TypeString(t, nil) + "." + fieldName(t, fa.Field)
@@ -260,7 +280,7 @@ func (k *c19) computeRequires() {
 				for _, e := range events {
 					evset[e] = true
 				}
-				pp := fmt.Sprintf("$%d", i)
+				pp := k.c.Path(p, nil)
 				k.c.nameHandedOn = true
 				ok, _, _ := k.c.Guard(f, nil, cmpReject(pp+" == nil rejected", token.EQL, pathIs(pp), pathIs("nil")), func(in ssa.Instruction) bool { return evset[in] })
 				k.c.nameHandedOn = false
@@ -355,7 +375,7 @@ func (k *c19) isReviewed(f *ssa.Function, expr string, site ...ssa.Instruction) 
 		}
 		okE := true
 		for _, n := range e.needs {
-			if !have[n] {
+			if !have[n] && !impliedByAny(conds, n) {
 				okE = false
 			}
 		}
@@ -395,7 +415,10 @@ func runC19(c *Ctx) {
 		k.hashing(f)
 		k.definiteNil(f)
 		k.preconditions(f)
+		k.nilNil(f)
+		k.boundedBeforeCanonicalizer(f)
 	}
+	c.Min("C19.R", 40)
 	// positive examples for the rules whose expected count on a healthy tree is zero (the detector is alive)
 	if w, err := buildWitness(c.Fset); err != nil {
 		c.Check("C19.H", "positive-example:build", false, 0, "built-in positive examples could not be built: "+err.Error())
@@ -411,6 +434,7 @@ func runC19(c *Ctx) {
 			return failed(wc, rule)
 		}
 		c.alive("C19.H", "interface-keyed map / interface{} == interface{}", run("C19.H", (*c19).hashing, "hashWitness", "eqWitness") == 2, run("C19.H", (*c19).hashing, "hashOK") == 0)
+		c.alive("C19.R", "a nil result returned with an error already found nil", run("C19.R", (*c19).nilNil, "nilNilWitness") == 1, run("C19.R", (*c19).nilNil, "nilNilOK") == 0)
 		c.alive("C19.Z", "value tested nil, then dereferenced", run("C19.Z", (*c19).definiteNil, "nilUseWitness") == 1, run("C19.Z", (*c19).definiteNil, "hashOK") == 0)
 	}
 	// reviewed table: every entry must still bind to a construct (stale entries are reported, not fatal)
@@ -920,6 +944,53 @@ func (k *c19) lenAtLeast(f *ssa.Function, at ssa.Instruction, lenExpr string, n 
 				return true
 			}
 		}
+	}
+	// the same fact established through a predicate helper (`if !isCompact(s) { return … }`) or in another spelling
+	// (strings.Count(s, sep) == m-1): decided by the guard engine, which descends into boolean helpers
+	implied := &GCheck{Name: lenExpr + " >= " + fmt.Sprint(n), MatchCmp: func(c *Ctx, bo *ssa.BinOp, env Env) (bool, bool) {
+		if !isCmp(bo.Op) {
+			return false, false
+		}
+		l, r := c.Path(bo.X, env), c.Path(bo.Y, env)
+		if l2, r2, ok := countAsParts(l, r); ok {
+			l, r = l2, r2
+		}
+		op := bo.Op
+		if r == lenExpr {
+			l, r = r, l
+			op = flipOp(op)
+		}
+		if l != lenExpr {
+			return false, false
+		}
+		cv, err := strconv.ParseInt(r, 10, 64)
+		if err != nil {
+			return false, false
+		}
+		for _, truth := range []bool{true, false} {
+			imp := false
+			switch op {
+			case token.EQL:
+				imp = truth && cv >= n
+			case token.NEQ:
+				imp = !truth && cv >= n
+			case token.LSS:
+				imp = !truth && cv >= n
+			case token.LEQ:
+				imp = !truth && cv+1 >= n
+			case token.GTR:
+				imp = truth && cv+1 >= n
+			case token.GEQ:
+				imp = truth && cv >= n
+			}
+			if imp {
+				return true, truth
+			}
+		}
+		return false, false
+	}}
+	if ok, _, nS := c.Guard(f, nil, implied, func(in ssa.Instruction) bool { return in == at }); ok && nS > 0 {
+		return true
 	}
 	return false
 }
@@ -1693,4 +1764,224 @@ func (k *c19) callersGuardLen(f *ssa.Function, pi int, n int64) bool {
 		}
 	}
 	return sites > 0
+}
+
+// ---- R: a refusal is an error -------------------------------------------------------------------
+// nilNil: a function with results (…, pointer-like, …, error) never returns a nil first result together with an error
+// that is known to be nil at that point — `return nil, err` where err was tested (err != nil → return) on the way
+// there. The callers of such functions use the result as soon as the error is nil.
+func (k *c19) nilNil(f *ssa.Function) {
+	c := k.c
+	res := f.Signature.Results()
+	if f.Blocks == nil || res.Len() < 2 || !isErrType(res.At(res.Len()-1).Type()) {
+		return
+	}
+	switch res.At(0).Type().Underlying().(type) {
+	case *types.Pointer, *types.Interface, *types.Map:
+	default:
+		return
+	}
+	var bad []string
+	var pos token.Pos
+	for _, r := range returnsOf(f) {
+		if c.Path(returnedValue(r, 0), nil) != "nil" {
+			continue
+		}
+		e := returnedValue(r, len(r.Results)-1)
+		if k, isK := e.(*ssa.Const); isK {
+			if k.IsNil() {
+				// a plain (nil, nil): legitimate only for "nothing there" results; reported when the function is a parser /
+				// builder (its other exits return allocations)
+				continue
+			}
+		}
+		if where := knownNilAt(e, r.Block(), 0); where != nil {
+			bad = append(bad, fmt.Sprintf("return at %s hands back (nil, %s) where that error was found nil at %s", c.pos(r.Pos()), c.Path(e, nil), c.pos(where.Pos())))
+			pos = r.Pos()
+		}
+	}
+	k.counts["R"]++
+	c.Check("C19.R", "refusal-carries-an-error:"+fname(f), len(bad) == 0, pos, "no exit returns a nil result with an error already known to be nil (the caller would use the nil result)", bad...)
+}
+
+// knownNilAt: v is known to be nil whenever control is in block b — a dominating branch took the side on which v == nil,
+// or v is a φ all of whose incoming values are known nil where they come from. Returns the deciding comparison.
+func knownNilAt(v ssa.Value, b *ssa.BasicBlock, d int) ssa.Value {
+	if d > 4 {
+		return nil
+	}
+	for x := b; x != nil; x = x.Idom() {
+		id := x.Idom()
+		if id == nil {
+			break
+		}
+		if len(x.Preds) != 1 {
+			continue
+		}
+		iff, isIf := id.Instrs[len(id.Instrs)-1].(*ssa.If)
+		if !isIf {
+			continue
+		}
+		bo, isB := iff.Cond.(*ssa.BinOp)
+		if !isB || (bo.Op != token.NEQ && bo.Op != token.EQL) {
+			continue
+		}
+		var tested ssa.Value
+		if kk, isK := bo.Y.(*ssa.Const); isK && kk.IsNil() {
+			tested = bo.X
+		} else if kk, isK := bo.X.(*ssa.Const); isK && kk.IsNil() {
+			tested = bo.Y
+		}
+		if tested == nil || cellValue(tested) != cellValue(v) {
+			continue
+		}
+		if (bo.Op == token.EQL) == (id.Succs[0] == x) {
+			return bo
+		}
+	}
+	if phi, ok := v.(*ssa.Phi); ok && len(phi.Edges) > 0 {
+		var first ssa.Value
+		for i, e := range phi.Edges {
+			if k, isK := e.(*ssa.Const); isK && k.IsNil() {
+				continue
+			}
+			pred := phi.Block().Preds[i]
+			w := nilOnEdge(e, pred, phi.Block())
+			if w == nil {
+				w = knownNilAt(e, pred, d+1)
+			}
+			if w == nil {
+				return nil
+			}
+			if first == nil {
+				first = w
+			}
+		}
+		return first
+	}
+	return nil
+}
+
+// nilOnEdge: the branch that ends block from tests v against nil and the edge to block to is the side on which it is nil.
+func nilOnEdge(v ssa.Value, from, to *ssa.BasicBlock) ssa.Value {
+	iff, isIf := from.Instrs[len(from.Instrs)-1].(*ssa.If)
+	if !isIf || from.Succs[0] == from.Succs[1] {
+		return nil
+	}
+	bo, isB := iff.Cond.(*ssa.BinOp)
+	if !isB || (bo.Op != token.NEQ && bo.Op != token.EQL) {
+		return nil
+	}
+	var tested ssa.Value
+	if kk, isK := bo.Y.(*ssa.Const); isK && kk.IsNil() {
+		tested = bo.X
+	} else if kk, isK := bo.X.(*ssa.Const); isK && kk.IsNil() {
+		tested = bo.Y
+	}
+	if tested == nil || cellValue(tested) != cellValue(v) {
+		return nil
+	}
+	if (bo.Op == token.EQL) == (from.Succs[0] == to) {
+		return bo
+	}
+	return nil
+}
+
+// boundedBeforeCanonicalizer: the canonicalizer re-serialises by recursive descent with no depth or size limit of its
+// own. Raw external bytes (a []byte / string parameter handed to MarshalCanonical as is) reach it only after the
+// protocol parser has accepted the same buffer (Parse enforces MaxOperationSize and encoding/json's nesting limit), or
+// after an explicit length test.
+func (k *c19) boundedBeforeCanonicalizer(f *ssa.Function) {
+	c := k.c
+	if f.Blocks == nil {
+		return
+	}
+	for _, cl := range findCalls(f, func(cl *ssa.Call) bool {
+		g := cl.Call.StaticCallee()
+		return g != nil && inModule(g) && g.Name() == "MarshalCanonical" && len(cl.Call.Args) == 1
+	}) {
+		mi, isMI := cl.Call.Args[0].(*ssa.MakeInterface)
+		if !isMI {
+			continue
+		}
+		t := types.TypeString(mi.X.Type().Underlying(), nil)
+		if t != "[]byte" && t != "string" {
+			continue
+		}
+		src := c.Path(mi.X, nil)
+		if !regexp.MustCompile(`^\$\d+$`).MatchString(src) {
+			continue
+		}
+		call := cl
+		bounded := anyOf("the buffer was accepted by the protocol parser, or its length tested",
+			&GCheck{Name: "Parse(…, buffer) ok", NoDescend: true, MatchCall: func(c *Ctx, p *ssa.Call, env Env) bool {
+				if !callNamed(p, "Parse") && !callNamed(p, "ParseOperation") {
+					return false
+				}
+				for _, a := range p.Call.Args {
+					if c.Path(a, env) == src {
+						return true
+					}
+				}
+				return false
+			}},
+			cmpReject("len(buffer) > limit rejected", token.GTR, pathIs("len("+src+")"), func(string) bool { return true }))
+		ok, w, _ := c.Guard(f, nil, bounded, func(in ssa.Instruction) bool { return in == ssa.Instruction(call) })
+		k.counts["G"]++
+		c.Check("C19.G", "raw-bytes-bounded-before-canonicalizer:"+fname(f), ok, cl.Pos(), fmt.Sprintf("the raw buffer %s reaches the recursive canonicalizer only after the parser accepted it (size and nesting bounded)", src), w...)
+	}
+}
+
+var relCondRe = regexp.MustCompile(`^\((.+) (==|!=|<|<=|>|>=) (.+)\)=(true|false)$`)
+
+// relOf parses a canonical comparison condition "(A op B)=truth" into its operands and the set of orderings of (A, B)
+// under which it holds, as a bit set: 1 = A<B, 2 = A==B, 4 = A>B. The split at " op " is tried at every position.
+func relOf(cnd string) (a, b string, set int, ok bool) {
+	m := relCondRe.FindStringSubmatch(cnd)
+	if m == nil {
+		return "", "", 0, false
+	}
+	body := cnd[1:strings.LastIndex(cnd, ")=")]
+	truth := strings.HasSuffix(cnd, "=true")
+	for _, op := range []string{" == ", " != ", " <= ", " >= ", " < ", " > "} {
+		for i := 0; i+len(op) <= len(body); i++ {
+			if body[i:i+len(op)] != op {
+				continue
+			}
+			l, r := body[:i], body[i+len(op):]
+			if strings.Count(l, "(") != strings.Count(l, ")") || strings.Count(r, "(") != strings.Count(r, ")") {
+				continue
+			}
+			s := map[string]int{" == ": 2, " != ": 5, " <= ": 3, " >= ": 6, " < ": 1, " > ": 4}[op]
+			if !truth {
+				s = 7 &^ s
+			}
+			return l, r, s, true
+		}
+	}
+	return "", "", 0, false
+}
+
+// impliedByAny: some condition known on the path implies the needed one (same two operands, in either order, and the
+// known relation holds only where the needed one does): `i < len(x)` implies `len(x) != i`.
+func impliedByAny(have []string, need string) bool {
+	na, nb, ns, ok := relOf(need)
+	if !ok {
+		return false
+	}
+	for _, h := range have {
+		ha, hb, hs, okH := relOf(h)
+		if !okH {
+			continue
+		}
+		if ha == nb && hb == na {
+			// mirror: A<B is B>A
+			hs = (hs & 2) | ((hs & 1) << 2) | ((hs & 4) >> 2)
+			ha, hb = hb, ha
+		}
+		if ha == na && hb == nb && hs&^ns == 0 && hs != 0 {
+			return true
+		}
+	}
+	return false
 }
